@@ -108,6 +108,8 @@ const (
 	sstMaxWrite = 20000
 	sstMaxTotal = 150000 // bytes per stream and history
 	sstBatch    = 8
+	// the packer never has more room than a packet buffer (the pool frames are of that capacity)
+	sstMaxBudget = int(protocol.MaxPacketBufferSize)
 )
 
 // byte states of the wire model
@@ -127,6 +129,11 @@ const (
 )
 
 var sstErrShutdown = errors.New("sst: connection closed")
+
+// enableResetStreamAt (transport parameters of an accepted 0-RTT session) on a stream that was
+// cancelled before, with a reliable boundary set that CancelWrite ignored: reliableOffset() changes
+// under the reset that is in progress. Whatever the stream does wrong afterwards is in the detail.
+const sstLateRSASig = "RESET_STREAM_AT support enabled after CancelWrite had ignored the reliable boundary: the stream's reset state becomes inconsistent"
 
 func sstSim() *KSim {
 	return &KSim{
@@ -220,7 +227,7 @@ func sstGenOne(r *KRng, cseed uint64, tier string) *sstGenT {
 	}
 	budget := func() int64 {
 		if r.P(0.25) {
-			return int64(r.Range(1, 1500))
+			return int64(r.Range(1, sstMaxBudget))
 		}
 		if sc.Framer {
 			return int64(sstBudgetsFramer[r.N(len(sstBudgetsFramer))])
@@ -636,7 +643,7 @@ func (st *sstStr) firstNot(n int, want byte) int {
 func (st *sstStr) fail(sig, format string, a ...any) {
 	switch {
 	case st.lateRSA:
-		st.h.known("RESET_STREAM_AT support enabled after the stream was reset with a reliable boundary set: "+sig, format, a...)
+		st.h.known(sstLateRSASig, "%s: %s", sig, fmt.Sprintf(format, a...))
 	case st.bufferedAfterReset && sig == "liveness: stream completion never reported":
 		st.h.known("liveness: stream completion never reported: a Write that was blocked when the stream was reset buffered its data afterwards", format, a...)
 	default:
@@ -696,7 +703,15 @@ func sstRunOne(sub *sstSub, ops []sstOp, res *KResult) (defSig, defDetail string
 	func() {
 		defer func() {
 			if p := recover(); p != nil {
-				res.Fail("panic: "+ksanitize(fmt.Sprint(p)), "%v\n%s", p, debug.Stack())
+				sig, late := "panic: "+ksanitize(fmt.Sprint(p)), false
+				for _, st := range h.strs {
+					late = late || st.lateRSA
+				}
+				if late {
+					h.known(sstLateRSASig, "%s: %v\n%s", sig, p, debug.Stack())
+				} else {
+					res.Fail(sig, "%v\n%s", p, debug.Stack())
+				}
 				h.forceUnlock()
 			}
 		}()
@@ -1131,8 +1146,8 @@ func (h *sstHist) pop(budget, maxFrames int) int {
 	if budget < 1 {
 		budget = 1
 	}
-	if budget > 1500 {
-		budget = 1500
+	if budget > sstMaxBudget {
+		budget = sstMaxBudget
 	}
 	h.npop++
 	var frames []ackhandler.Frame
@@ -1357,6 +1372,16 @@ func (h *sstHist) connUsed() int {
 	return n
 }
 
+// unsentFinal: some stream has announced (RESET_STREAM_AT) a final size above what it has sent.
+func (h *sstHist) unsentFinal() bool {
+	for _, st := range h.strs {
+		if st.announced > st.sentHi && st.announcedK == "RESET_STREAM_AT" {
+			return true
+		}
+	}
+	return false
+}
+
 func (h *sstHist) connSent() int {
 	n := 0
 	for _, st := range h.strs {
@@ -1370,8 +1395,13 @@ func (st *sstStr) announce(v int, kind string) {
 		st.announced, st.announcedK = v, kind
 		return
 	}
+	if st.announced != v && st.announcedK == "RESET_STREAM_AT" && kind == "RESET_STREAM" && st.stopped && v < st.announced {
+		// CancelWrite announced max(sent, reliable size); STOP_SENDING then announces the bytes sent
+		st.h.known("final size changed: a RESET_STREAM_AT announced the unsent reliable size, the RESET_STREAM after STOP_SENDING announces the bytes sent", "stream %d: %d then %d (sent %d)", st.id, st.announced, v, st.sentHi)
+		return
+	}
 	if st.announced != v {
-		st.h.res.Fail("final size changed: "+st.announcedK+" then "+kind, "stream %d: %d then %d (sent %d, reliable size %d)", st.id, st.announced, v, st.sentHi, st.relSize)
+		st.fail("final size changed: "+st.announcedK+" then "+kind, "stream %d: %d then %d (sent %d, reliable size %d)", st.id, st.announced, v, st.sentHi, st.relSize)
 	}
 }
 
@@ -1412,7 +1442,7 @@ func (h *sstHist) onStreamFrame(f ackhandler.StreamFrame, d sstWire) {
 		if off < st.sentHi {
 			what = "retransmission"
 		}
-		res.Fail("STREAM frame carries bytes that differ from the bytes written at that offset ("+what+")", "stream %d [%d,%d): offset %d carries %#x, written %#x", st.id, off, off+n, off+i, d.data[i], st.content.b[off+i])
+		st.fail("STREAM frame carries bytes that differ from the bytes written at that offset ("+what+")", "stream %d [%d,%d): offset %d carries %#x, written %#x", st.id, off, off+n, off+i, d.data[i], st.content.b[off+i])
 		return
 	}
 	// cancellation: nothing beyond the reliable size
@@ -1464,16 +1494,19 @@ func (h *sstHist) onStreamFrame(f ackhandler.StreamFrame, d sstWire) {
 		res.Probe("retransmission")
 	}
 	if !h.sub.Faulty && isRetx {
-		res.Fail("retransmission without any loss", "stream %d [%d,%d)", st.id, off, off+n)
+		st.fail("retransmission without any loss", "stream %d [%d,%d)", st.id, off, off+n)
 		return
 	}
 	if off+n > st.limit {
-		res.Fail("STREAM frame beyond the peer's MAX_STREAM_DATA ("+kind+")", "stream %d [%d,%d), limit %d", st.id, off, off+n, st.limit)
+		st.fail("STREAM frame beyond the peer's MAX_STREAM_DATA ("+kind+")", "stream %d [%d,%d), limit %d", st.id, off, off+n, st.limit)
 		return
 	}
 	if isNew {
-		if u := h.connUsed(); u > h.connLimit {
-			res.Fail("STREAM frames beyond the peer's MAX_DATA ("+kind+")", "stream %d [%d,%d): connection total %d, limit %d", st.id, off, off+n, u, h.connLimit)
+		if u := h.connUsed(); u > h.connLimit && h.connSent() <= h.connLimit && h.unsentFinal() {
+			h.known("STREAM frames beyond the peer's MAX_DATA: the final size of a RESET_STREAM_AT covers a reliable remainder that is not sent yet and not charged to the connection window", "stream %d [%d,%d): connection total at the peer %d, bytes sent %d, limit %d", st.id, off, off+n, u, h.connSent(), h.connLimit)
+			return
+		} else if u > h.connLimit {
+			st.fail("STREAM frames beyond the peer's MAX_DATA ("+kind+")", "stream %d [%d,%d): connection total %d, limit %d", st.id, off, off+n, u, h.connLimit)
 			return
 		}
 	}
@@ -1487,17 +1520,21 @@ func (h *sstHist) onStreamFrame(f ackhandler.StreamFrame, d sstWire) {
 	}
 	if d.fin {
 		switch {
+		case st.resetFirst != "" && st.announced >= 0 && off+n < st.announced && off+n == st.relSize:
+			// CancelWrite / OnLost cut a queued frame down to the reliable size and leave its FIN bit set
+			h.known("final size changed: a STREAM frame truncated to the reliable size still carries the FIN bit", "stream %d [%d,%d) fin, final size announced before (%s) %d", st.id, off, off+n, st.announcedK, st.announced)
+			return
 		case st.resetFirst != "":
 			res.Probe("fin-after-reset")
 			st.announce(off+n, "FIN")
 		case !st.closeDone:
-			res.Fail("FIN sent although Close was not called", "stream %d [%d,%d)", st.id, off, off+n)
+			st.fail("FIN sent although Close was not called", "stream %d [%d,%d)", st.id, off, off+n)
 		case off+n != st.finalSize:
-			res.Fail("FIN not at the final size", "stream %d [%d,%d), final size %d", st.id, off, off+n, st.finalSize)
+			st.fail("FIN not at the final size", "stream %d [%d,%d), final size %d", st.id, off, off+n, st.finalSize)
 		case st.sentHi != st.finalSize:
-			res.Fail("FIN sent before all bytes", "stream %d [%d,%d), sent %d of %d", st.id, off, off+n, st.sentHi, st.finalSize)
+			st.fail("FIN sent before all bytes", "stream %d [%d,%d), sent %d of %d", st.id, off, off+n, st.sentHi, st.finalSize)
 		case st.finState == sstFinInflight || st.finState == sstFinAcked:
-			res.Fail("FIN repeated without a loss", "stream %d [%d,%d), fin state %d", st.id, off, off+n, st.finState)
+			st.fail("FIN repeated without a loss", "stream %d [%d,%d), fin state %d", st.id, off, off+n, st.finState)
 		default:
 			st.announce(off+n, "FIN")
 		}
@@ -1521,6 +1558,12 @@ func (h *sstHist) onStreamFrame(f ackhandler.StreamFrame, d sstWire) {
 func (h *sstHist) onResetFrame(f ackhandler.Frame, d sstWire) {
 	res := h.res
 	st := h.byID(protocol.StreamID(d.sid))
+	if st != nil && st.dead && h.fr != nil {
+		// framer.Handle0RTTRejection forgets the active streams and the queued control frames, but not
+		// streamsWithControlFrames: a reset queued before the rejection is sent after it
+		h.known("RESET_STREAM of a stream from before the 0-RTT rejection is sent after the rejection", "stream %d final %d", d.sid, d.final)
+		return
+	}
 	if st == nil || st.dead {
 		res.Fail("RESET_STREAM frame for a stream that does not exist", "stream %d", d.sid)
 		return
@@ -1797,7 +1840,7 @@ func (h *sstHist) exec(op sstOp) {
 		st.queue = append(st.queue, sstReq{kind: sstReqClose})
 		res.Shape("c")
 	case "pop":
-		h.pop(int(sstClamp(op.A, 1, 1500)), int(sstClamp(op.B, 0, 16)))
+		h.pop(sstClamp(op.A, 1, int64(sstMaxBudget)), sstClamp(op.B, 0, 16))
 		res.Shape("pop")
 	case "ack":
 		if h.ack(op.A) {
@@ -2029,7 +2072,7 @@ func (h *sstHist) transportParameters(op sstOp) {
 			continue
 		}
 		if h.sub.RSA == 2 {
-			if st.resetFirst == "local" && !st.stopped && st.relSet && st.relLo > 0 {
+			if st.resetFirst == "local" && st.relSet && st.relLo > 0 {
 				st.lateRSA = true
 				h.res.Probe("rsa-enabled-after-reset-with-boundary")
 			}
